@@ -77,6 +77,14 @@ fn edits_for(base: &Value, rng: &mut Rng, thorough: bool) -> Vec<FileEdit> {
         v["proof_parameters"]["stark"]["fri"]["fri_step_list"] = lst.clone();
         push("proof_parameters fri_step_list", format!("fri_step_list = {lst} ({why})"), mark, v);
     }
+    // a step whose column count 2^step does not fit the verifier's type, inside a domain large enough
+    // for the step to be subtracted (two cooperating parameters)
+    for (lst, cosets) in [(json!([0, 33]), 60u64), (json!([0, 32]), 40), (json!([0, 40, 2]), 60), (json!([0, 63]), 64)] {
+        let mut v = base.clone();
+        v["proof_parameters"]["stark"]["fri"]["fri_step_list"] = lst.clone();
+        v["proof_parameters"]["stark"]["log_n_cosets"] = json!(cosets);
+        push("proof_parameters fri_step_list + log_n_cosets", format!("fri_step_list = {lst}, log_n_cosets = {cosets} (2^step columns not representable)"), Mark::Malformed, v);
+    }
     // ---- public input scalars
     for (field, vals) in [
         ("n_steps", vec![(json!(3), Mark::Malformed), (json!(0), Mark::Malformed), (json!(1), Mark::Unknown), (json!(4294967296u64), Mark::Unknown)]),
@@ -144,6 +152,24 @@ fn edits_for(base: &Value, rng: &mut Rng, thorough: bool) -> Vec<FileEdit> {
         let mut v = base.clone();
         v["public_input"]["public_memory"].as_array_mut().unwrap().remove(i);
         push("public_memory removed", format!("public_memory[{i}] removed"), Mark::WellFormed, v);
+    }
+    // continuous-page cells interleaved with the main page (the main page is every page-0 cell, in order)
+    if n_mem >= 6 {
+        let mut v = base.clone();
+        let cell = json!({"address": 777777, "page": 1, "value": "0x5"});
+        v["public_input"]["public_memory"].as_array_mut().unwrap().insert(3, cell.clone());
+        push("public_memory page", "one page-1 cell inserted at index 3".into(), Mark::Malformed, v);
+        let mut v = base.clone();
+        v["public_input"]["public_memory"].as_array_mut().unwrap().push(cell.clone());
+        push("public_memory page", "one page-1 cell appended".into(), Mark::Malformed, v);
+        let mut v = base.clone();
+        {
+            let a = v["public_input"]["public_memory"].as_array_mut().unwrap();
+            a.insert(1, json!({"address": 888888, "page": 2, "value": "0x6"}));
+            a.insert(4, cell.clone());
+            a.insert(5, json!({"address": 888889, "page": 2, "value": "0x7"}));
+        }
+        push("public_memory page", "cells of pages 1 and 2 interleaved with the main page".into(), Mark::Malformed, v);
     }
     {
         let mut v = base.clone();
@@ -425,6 +451,23 @@ pub fn run(args: &Args) -> Report {
                     if oracle.is_ok() {
                         rep.inc("oracle_mark_mismatch");
                         rep.note(&format!("generator marked [{}] malformed but the independent loader accepts it", e.class));
+                    } else if let (Ok(Ok(p2)), "public_memory page") = (&got, e.class.as_str()) {
+                        // known: continuous pages are dropped by the CLI conversion. Beyond that the
+                        // main page handed over must still be every page-0 cell of the file, in order.
+                        let want: Vec<(starknet_crypto::Felt, starknet_crypto::Felt)> = e.value["public_input"]["public_memory"]
+                            .as_array()
+                            .unwrap()
+                            .iter()
+                            .filter(|c| c["page"].as_u64() == Some(0))
+                            .map(|c| (starknet_crypto::Felt::from(c["address"].as_u64().unwrap_or(0)), starknet_crypto::Felt::from_hex(c["value"].as_str().unwrap_or("0x0")).unwrap_or_default()))
+                            .collect();
+                        let have: Vec<(starknet_crypto::Felt, starknet_crypto::Felt)> = p2.public_input.main_page.iter().map(|c| (c.address, c.value)).collect();
+                        if want != have {
+                            rep.violation("C19|differs|main page of a multi-page file", &format!("the main page handed to the verifier has {} cells, the file lists {} page-0 cells [{}]", have.len(), want.len(), e.label), d.clone());
+                        } else {
+                            rep.inc("multi_page.main_page_equal");
+                            rep.violation(&format!("C19|accepts-malformed|{}", e.class), &format!("parser/CLI silently produced a proof from a malformed / not representable file [{}: {}]", e.class, e.label), d.clone());
+                        }
                     } else if let Ok(Ok(_)) = &got {
                         rep.violation(&format!("C19|accepts-malformed|{}", e.class), &format!("parser/CLI silently produced a proof from a malformed / not representable file [{}: {}]", e.class, e.label), d.clone());
                     } else {
